@@ -25,6 +25,17 @@ fn main() -> ExitCode {
         let strategy = rhistory();
         let mut histories: Vec<(usize, RHistory)> =
             (0..count).map(|k| (k, strategy.new_tree(&mut runner).expect("tree").current())).collect();
+        for (k, h) in histories.iter_mut() {
+            let forced = match *k % 16 {
+                1 | 9 => Some(vcore::Strat::Basic),
+                6 => Some(vcore::Strat::Append),
+                14 => Some(vcore::Strat::AppendReverse),
+                _ => None,
+            };
+            if let Some(strat) = forced {
+                *h = e2_genstage::single_strategy(h.clone(), strat);
+            }
+        }
         if count >= 24 && std::env::var_os("VERIF_GEN_LIGHT").is_none() {
             let k = count / 2;
             let h = histories[k].1.clone();
